@@ -33,6 +33,7 @@ type (
 		id      int
 		tag     string
 		nonNil  bool // for pointer/interface typed symbols: known not to be nil
+		uniq    bool // an object identity: two different uniq symbols are different values
 		payload AV   // optional: what the symbol was derived from (e.g. the token value an integer was parsed from)
 	}
 	avPtr struct {
@@ -739,6 +740,51 @@ func (e *Engine) instrs(fr *frame, b *ssa.BasicBlock, from int, st *State, outs 
 				k := "[" + avKey(e.val(fr, st, in.Key)) + "]"
 				st.store(avPtr{p.o, p.path + k}, e.val(fr, st, in.Value))
 			}
+		case *ssa.Lookup:
+			// a table lookup with a symbolic integer key into a map whose keys are all constants (built by the package
+			// initialiser or locally): one path per key, and one for "not in the table"
+			if keys, mp, sy, ok := e.constKeyedMap(fr, st, in); ok {
+				type alt struct {
+					st  *State
+					val AV
+				}
+				var alts []alt
+				for _, k := range keys {
+					s2 := st.clone()
+					if !s2.assume(avCmp{token.EQL, sy, avConst{constant.MakeInt64(k)}}, true, in.Pos()) {
+						continue
+					}
+					v, _ := s2.load(avPtr{mp.o, mp.path + fmt.Sprintf("[%d]", k)})
+					if in.CommaOk {
+						v = avTuple{v, avConst{constant.MakeBool(true)}}
+					}
+					alts = append(alts, alt{s2, v})
+				}
+				s3 := st.clone()
+				feasible := true
+				for _, k := range keys {
+					if !s3.assume(avCmp{token.EQL, sy, avConst{constant.MakeInt64(k)}}, false, in.Pos()) {
+						feasible = false
+					}
+				}
+				if feasible {
+					var zero AV = zeroAV(in.Type())
+					if in.CommaOk {
+						zero = avTuple{zeroAV(in.Type().(*types.Tuple).At(0).Type()), avConst{constant.MakeBool(false)}}
+					}
+					alts = append(alts, alt{s3, zero})
+				}
+				for k, a := range alts {
+					f2 := fr
+					if k < len(alts)-1 {
+						f2 = fr.fork()
+					}
+					f2.env[in] = a.val
+					e.instrs(f2, b, i+1, a.st, outs)
+				}
+				return
+			}
+			fr.env[in] = e.eval(fr, st, in)
 		case *ssa.Defer, *ssa.Go, *ssa.RunDefers, *ssa.DebugRef, *ssa.Send:
 		case ssa.Value:
 			fr.env[in] = e.eval(fr, st, in)
@@ -766,7 +812,7 @@ func (e *Engine) doCall(fr *frame, st *State, in ssa.CallInstruction) []CallOut 
 	if c.IsInvoke() {
 		recv := e.val(fr, st, c.Value)
 		args = append(args, recv)
-		if iv, ok := recv.(avIface); ok && iv.dyn != nil {
+		if iv, ok := recv.(avIface); ok && iv.dyn != nil && e.P.SSA.MethodSets.MethodSet(iv.dyn).Lookup(c.Method.Pkg(), c.Method.Name()) != nil {
 			if m := e.P.SSA.LookupMethod(iv.dyn, c.Method.Pkg(), c.Method.Name()); m != nil {
 				callee = m
 				args[0] = iv.v
@@ -1193,6 +1239,29 @@ func (e *Engine) binop(st *State, op token.Token, x, y AV) AV {
 				return avConst{constant.MakeBool(op == token.EQL)}
 			}
 		}
+		// interface values: equal when type and (identity) value are, different when the dynamic types differ
+		if ix, ok := x.(avIface); ok {
+			if iy, ok := y.(avIface); ok {
+				if !types.Identical(ix.dyn, iy.dyn) {
+					return avConst{constant.MakeBool(op == token.NEQ)}
+				}
+				return e.binop(st, op, ix.v, iy.v)
+			}
+		}
+		if sx, ok := x.(avSym); ok {
+			if sy, ok := y.(avSym); ok && sx.uniq && sy.uniq {
+				return avConst{constant.MakeBool(op == token.NEQ)}
+			}
+			// a fresh object identity is never equal to a concrete interface value built elsewhere
+			if _, isI := y.(avIface); isI && sx.uniq {
+				return avConst{constant.MakeBool(op == token.NEQ)}
+			}
+		}
+		if sy, ok := y.(avSym); ok && sy.uniq {
+			if _, isI := x.(avIface); isI {
+				return avConst{constant.MakeBool(op == token.NEQ)}
+			}
+		}
 	}
 	// integer symbol against constant: decided by facts?
 	sx, c, o2 := x, y, op
@@ -1231,6 +1300,52 @@ func isDefNonNil(v AV) bool {
 	return false
 }
 
+// constKeyedMap: in looks an integer symbol up in a map object all of whose stored keys are integer constants.
+func (e *Engine) constKeyedMap(fr *frame, st *State, in *ssa.Lookup) ([]int64, avPtr, avSym, bool) {
+	mp, ok := e.val(fr, st, in.X).(avPtr)
+	if !ok {
+		return nil, mp, avSym{}, false
+	}
+	sy, ok := e.val(fr, st, in.Index).(avSym)
+	if !ok {
+		return nil, mp, sy, false
+	}
+	if _, known := st.KnownInt(sy); known {
+		return nil, mp, sy, false
+	}
+	if _, isMap := in.X.Type().Underlying().(*types.Map); !isMap {
+		return nil, mp, sy, false
+	}
+	var keys []int64
+	for k := range st.heap[mp.o] {
+		if !strings.HasPrefix(k, mp.path+"[") {
+			continue
+		}
+		rest := strings.TrimSuffix(k[len(mp.path)+1:], "]")
+		if i := strings.Index(rest, "]"); i >= 0 {
+			rest = rest[:i]
+		}
+		var v int64
+		if _, err := fmt.Sscanf(rest, "%d", &v); err != nil || fmt.Sprint(v) != rest {
+			return nil, mp, sy, false
+		}
+		dup := false
+		for _, x := range keys {
+			if x == v {
+				dup = true
+			}
+		}
+		if !dup {
+			keys = append(keys, v)
+		}
+	}
+	if len(keys) == 0 || len(keys) > 64 {
+		return nil, mp, sy, false
+	}
+	sort.Slice(keys, func(i, j int) bool { return keys[i] < keys[j] })
+	return keys, mp, sy, true
+}
+
 // ---------------------------------------------------------------- helpers for rules
 
 // DynType returns the dynamic type name of an interface value ("*parser.IndexNode"), or "".
@@ -1258,4 +1373,48 @@ func (s *State) fieldsOf(v AV) map[string]AV {
 		return map[string]AV{}
 	}
 	return nil
+}
+
+
+// ---------------------------------------------------------------- package initialisers
+
+// pkgInitDom is the domain used while a package initialiser is interpreted: other packages' initialisers are skipped,
+// library calls return opaque values, absent global content is zero.
+type pkgInitDom struct{}
+
+func (pkgInitDom) Call(e *Engine, st *State, site ssa.CallInstruction, callee *ssa.Function, args []AV, depth int) ([]CallOut, bool) {
+	if callee != nil && callee.Name() == "init" && depth > 0 {
+		return []CallOut{{St: st}}, true
+	}
+	if callee != nil && !e.P.IsRepo(callee) {
+		res := make([]AV, site.Common().Signature().Results().Len())
+		for i := range res {
+			res[i] = avSym{id: e.fresh(), tag: "init:" + callee.Name(), nonNil: true, uniq: true}
+		}
+		return []CallOut{{St: st, Res: res}}, true
+	}
+	return nil, false
+}
+func (pkgInitDom) Load(e *Engine, st *State, p avPtr, t types.Type) AV { return zeroAV(t) }
+
+// WithInit returns st extended with the effects of pkg's initialiser (tables held in package-level variables).
+func (e *Engine) WithInit(pkg *ssa.Package, st *State) *State {
+	if pkg == nil {
+		return st
+	}
+	init := pkg.Func("init")
+	if init == nil {
+		return st
+	}
+	saved, savedVisits := e.D, e.MaxVisits
+	e.D, e.MaxVisits = pkgInitDom{}, 1
+	outs := e.Run(init, nil, st.clone())
+	e.D, e.MaxVisits = saved, savedVisits
+	e.paths, e.Aborted = 0, ""
+	if len(outs) == 1 && !outs[0].Cut && !outs[0].Panic {
+		out := outs[0].St
+		out.Trace, out.Conds = nil, nil
+		return out
+	}
+	return st
 }
